@@ -417,3 +417,13 @@ package expr
 //@   ensures typed && refid.History != nil ==> res != nil && res.Value == camelS(fname[:len(fname) - 3]) + "/" + refid.Value + "/_history/" + refid.History.Value
 //@   ensures refGet(ref) == nil ==> res == nil
 //@   assigns nothing
+//
+// ---- C01/C03: a function call node hands the function a CLONE of the context --------------------
+// Every FHIRPath function value (built-in or custom) may set LastResult/BeforeLastResult of the
+// context it is given, and nothing else it did not allocate (assumed for custom functions).
+//@ field FunctionExpression.Fn(ctx, input, args) (res, err)
+//@   requires ctx != nil
+//@   assigns ctx.LastResult, ctx.BeforeLastResult
+//@ func (e *FunctionExpression) Evaluate(ctx, input) (res, err)
+//@   requires e != nil && ctx != nil && e.Fn != nil
+//@   assigns nothing
